@@ -257,6 +257,11 @@ func runC06(c *Ctx) {
 		// current chain only if a disconnected block's transactions leave it together with the tip stamp (shared with C15-R1)
 		checkCoupledRollback(c, "C06-R1")
 		checkStartupWalk(c, "C06-R1")
+		// "not leased" is read from the lease bucket: a lease ends only by its owner, its expiry or a confirmed spend
+		// (C12-R5's rules) — not when an unconfirmed spend is recorded, which can be forgotten again
+		c.Borrow(runC12, "C12-R5", "C06-R1", func(k string) bool {
+			return strings.HasPrefix(k, "lease-released-only-by-owner-expiry-or-confirmed-spend") || strings.HasPrefix(k, "lease-bucket-writer")
+		})
 		// confirms(): canonical form
 		if cf := walletFn(c, "C06-R1", "confirms"); cf != nil {
 			okForm := true
